@@ -293,7 +293,9 @@ class Outcome:
         self.transitions += r.states
         self.tlc_runs.append(dict(name=name, **r.summary()))
         if r.error:
-            self.machinery.append("TLC %s: %s" % (name, r.error))
+            err = r.error
+            m = re.search(r"(Unknown operator[^\n]*|\*\*\* Errors[^\n]*\n[^\n]*\n[^\n]*|Error: [^\n]*)", err)
+            self.machinery.append("TLC %s: %s" % (name, (m.group(1) if m else err)[-400:]))
 
     def violation(self, key, what, replay_obj=None):
         self.violations.append(dict(key=key, what=what, replay=replay_obj))
@@ -336,8 +338,8 @@ class Outcome:
                 print("VIOLATION property=%s replay=%s  # %s: %s" % (self.pid, path, v["key"], v["what"]))
             rc = 1
         if self.machinery:
-            for m in self.machinery:
-                print("MACHINERY-FAILURE property=%s %s" % (self.pid, m), file=sys.stderr)
+            for m in sorted(set(self.machinery))[:5]:
+                print("MACHINERY-FAILURE property=%s %s" % (self.pid, m[-600:]), file=sys.stderr)
             if rc == 0:
                 rc = 2
         cov = dict(
